@@ -109,7 +109,10 @@ def mypy_expression_to_sds_type(expr: mp_nodes.Expression) -> sds_types.Abstract
     if isinstance(expr, mp_nodes.NameExpr):
         if expr.name in {"False", "True"}:
             return sds_types.NamedType(name="bool", qname="builtins.bool")
-        elif expr.name != "None" and isinstance(expr.node, mp_nodes.Var):
+        elif expr.name == "None":
+            # Like True and False, None is recognised by its name: in blocks mypy does not analyse it is not bound
+            return sds_types.NamedType(name="None", qname="builtins.None")
+        elif isinstance(expr.node, mp_nodes.Var):
             # The name of a variable or parameter is not the name of its type
             return sds_types.UnknownType()
         elif not expr.fullname:
